@@ -24,6 +24,7 @@ type Ctx struct {
 	gpn        map[*ssa.Global]string
 	cReach     *Reach
 	entryReach map[string]*Reach
+	signers    map[string][]string
 	callers    map[*ssa.Function][]CallSite
 }
 
